@@ -269,19 +269,46 @@ func (x *dvExec) down(a, b int) {
 	}
 	delete(x.links, [2]int{a, b})
 	x.emit(map[string]any{"ev": "down", "a": a, "b": b})
-	// the dead interval passes; every remaining neighbour keeps being heard
+	x.deadPass([]int{a, b})
+}
+
+// rdown: router r loses all its links at once (several neighbours die in the same dead-check pass)
+func (x *dvExec) rdown(r int) {
+	affected := map[int]bool{r: true}
+	for _, l := range x.linkList() {
+		if l[0] == r || l[1] == r {
+			delete(x.links, l)
+			x.emit(map[string]any{"ev": "down", "a": l[0], "b": l[1]})
+			affected[l[0]], affected[l[1]] = true, true
+		}
+	}
+	rs := []int{}
+	for k := range affected {
+		rs = append(rs, k)
+	}
+	sort.Ints(rs)
+	x.deadPass(rs)
+}
+
+// the dead interval passes; every remaining neighbour keeps being heard; one dead-check pass on each given router
+func (x *dvExec) deadPass(routers []int) {
 	time.Sleep(31 * time.Second)
 	for l := range x.links {
 		x.rs[l[0]].r.VerifPing(nm(x.names[l[1]-1]), x.faceOf(l[0], l[1]))
 		x.rs[l[1]].r.VerifPing(nm(x.names[l[0]-1]), x.faceOf(l[1], l[0]))
 	}
-	for _, p := range [][2]int{{a, b}, {b, a}} {
-		known := x.rs[p[0]].r.VerifNeighbors().Get(nm(x.names[p[1]-1])) != nil
-		x.rs[p[0]].r.VerifDeadCheck()
+	for _, r := range routers {
+		ns := []int{}
+		for n := 1; n <= x.n; n++ {
+			if n != r && !x.links[[2]int{min(r, n), max(r, n)}] && x.rs[r].r.VerifNeighbors().Get(nm(x.names[n-1])) != nil {
+				ns = append(ns, n)
+			}
+		}
+		x.rs[r].r.VerifDeadCheck()
 		synctest.Wait()
 		x.collect()
-		if known {
-			x.emit(map[string]any{"ev": "dead", "r": p[0], "n": p[1], "adv": x.advOf(p[0]), "cmds": x.cmdsOf(p[0]), "picks": x.picksOf(p[0])})
+		if len(ns) > 0 {
+			x.emit(map[string]any{"ev": "dead", "r": r, "ns": ns, "adv": x.advOf(r), "cmds": x.cmdsOf(r), "picks": x.picksOf(r)})
 		}
 	}
 }
@@ -403,6 +430,8 @@ func runDvExecution(t *testing.T, w *traceWriter, n int, links [][2]int, next fu
 				if x.links[[2]int{min(a.A, a.B), max(a.A, a.B)}] {
 					x.down(a.A, a.B)
 				}
+			case "rdown":
+				x.rdown(a.R)
 			case "up":
 				if a.A != a.B && !x.links[[2]int{min(a.A, a.B), max(a.A, a.B)}] {
 					x.up(a.A, a.B)
@@ -486,6 +515,9 @@ func allGraphs(n int) [][][2]int {
 
 func genDvAct(rng *rand.Rand, x *dvExec) dvAct {
 	ll := x.linkList()
+	if len(ll) == 0 {
+		return dvAct{Ev: "up", A: 1 + rng.Intn(x.n), B: 1 + rng.Intn(x.n)}
+	}
 	switch k := rng.Intn(100); {
 	case k < 55:
 		l := ll[rng.Intn(len(ll))]
@@ -507,8 +539,13 @@ func genDvAct(rng *rand.Rand, x *dvExec) dvAct {
 			}
 		}
 		return dvAct{Ev: "quiet"}
-	case k < 65:
+	case k < 63:
 		return dvAct{Ev: "up", A: 1 + rng.Intn(x.n), B: 1 + rng.Intn(x.n)}
+	case k < 65: // a whole router goes away (its links come back through later "up" steps)
+		if len(ll) > 2 {
+			return dvAct{Ev: "rdown", R: 1 + rng.Intn(x.n)}
+		}
+		return dvAct{Ev: "quiet"}
 	case k < 70:
 		return dvAct{Ev: "quiet"}
 	case k < 82:
